@@ -91,6 +91,38 @@ def containerIsGood (g : GoodCfg) (step : Rat) (ph : List Rat) : List Bool :=
   let segs := cvSegs (wrapAt step) (fun _ => true) ph
   (segs.filter (·.2.isSome)).map fun s => isGood g s.1
 
+/-! ### Code-shaped model (index arithmetic as in the implementation)
+
+`cvIdx` mirrors emd/cycles.py:get_cycle_vector line by line: wrap positions
+`where(|diff| > step)[0] + 1`, boundary list `0 :: inds ++ [n]`, the segment
+loop with its running counter, and the slice assignment `cycles[a:b] = count`.
+`Proofs/Lemmas/CyclesIdx.lean` proves `cvIdx = paint ∘ cvSegs`, so every theorem
+about the run-shaped model holds for the code-shaped one; the driver runs `cvIdx`. -/
+
+/-- positions (i+1) of the wraps, as the code computes them -/
+def wrapIdx {α : Type} (w : α → α → Bool) : List α → Nat → List Nat
+  | a :: b :: t, i => if w a b then (i + 1) :: wrapIdx w (b :: t) (i + 1) else wrapIdx w (b :: t) (i + 1)
+  | _, _ => []
+
+/-- `cycles[a:b] = v` -/
+def fill (l : List Int) (a b : Nat) (v : Int) : List Int :=
+  l.take a ++ List.replicate (min b l.length - a) v ++ l.drop b
+
+/-- the segment loop over the boundary list, with the running counter -/
+def segLoop {α : Type} (accept : List α → Bool) (xs : List α) : List Nat → Nat → List Int → List Int
+  | a :: b :: t, count, lab =>
+    if accept ((xs.drop a).take (b - a)) then
+      segLoop accept xs (b :: t) (count + 1) (fill lab a b (count : Int))
+    else segLoop accept xs (b :: t) count lab
+  | _, _, lab => lab
+
+/-- code-shaped model of get_cycle_vector on one column -/
+def cvIdx {α : Type} (w : α → α → Bool) (accept : List α → Bool) (xs : List α) : List Int :=
+  let inds := wrapIdx w xs 0
+  let lab := List.replicate xs.length (-1 : Int)
+  if inds = [] then lab
+  else segLoop accept xs (0 :: inds ++ [xs.length]) 0 lab
+
 open Protocol in
 def handle (o : Op) : Option String :=
   match o.name with
@@ -110,7 +142,8 @@ def handle (o : Op) : Option String :=
       if mask.length ≠ ph.length then return "bad-op"
       let g : GoodCfg := { edge, twopi, endlo }
       let segs := cvSegs (wrapP step) (accept g (good != 0)) (ph.zip mask)
-      return s!"ok k={nCycles segs} | {fmtInts (paint segs)}"
+      let labels := cvIdx (wrapP step) (accept g (good != 0)) (ph.zip mask)
+      return s!"ok k={nCycles segs} | {fmtInts labels}"
   | "ISGOOD" => some <| Id.run do
       let some edge := o.rat? "edge" | return "bad-op"
       let some twopi := o.rat? "twopi" | return "bad-op"
